@@ -57,6 +57,12 @@ Proof.
     + destruct (existsb (fun e => fst e =? p) enabled); discriminate.
 Qed.
 
+(* ... and the same for the token of a renewal: a Renew that names another policy or mode moves the channel to that pair,
+   so it is decided like an Issue (both request types, every pair) *)
+Theorem C30_issue_and_renew_only_for_enabled_pair : forall enabled has_key k p m,
+  opn_accept_k enabled has_key k p m = true -> In (p, m) enabled \/ (p, m) = (0, 1).
+Proof. intros enabled has_key [|] p m H; exact (C30_channel_only_for_enabled_pair enabled has_key p m H). Qed.
+
 (* every refusal carries one of the two security status codes *)
 Theorem C30_refusal_status : forall enabled p m st, accept_security enabled p m = Some st ->
   (st = StBadSecurityPolicyRejected \/ st = StBadSecurityModeRejected) /\ sec_enabled enabled p m = false /\ (p, m) <> (0, 1).
@@ -123,6 +129,7 @@ Proof. vm_compute. repeat split. Qed.
 
 Print Assumptions C30_decisions_tied.
 Print Assumptions C30_channel_only_for_enabled_pair.
+Print Assumptions C30_issue_and_renew_only_for_enabled_pair.
 Print Assumptions C30_refusal_status.
 Print Assumptions C30_only_discovery_on_other_channels.
 Print Assumptions C30_served_implies_enabled.
